@@ -53,6 +53,10 @@ func NewURLKeyer() URLKeyer { return URLKeyerFunc(makeURLKey) }
 //   - RFC 7230 §2.7.3: https://datatracker.ietf.org/doc/html/rfc7230#section-2.7.3
 func makeURLKey(u *url.URL) string {
 	if u.Opaque != "" {
+		if scheme := strings.ToLower(u.Scheme); scheme == "http" || scheme == "https" {
+			// the same opaque part under http and https names different resources
+			return scheme + ":" + u.Opaque
+		}
 		return u.Opaque
 	}
 	// RFC 3986 §6.2.2.3: Path normalization (dot-segment removal) is handled by
